@@ -94,8 +94,8 @@ fn observe_plain(dom: &xml_dom::XmlDocument) -> J {
     let mut v = observe_elems(&fake).as_array().cloned().unwrap_or_default();
     for e in v.iter_mut() {
         e["idx"] = json!(0);
-        let mut sc: Vec<String> = e["scope"].as_array().map(|a| a.iter().map(|x| x.to_string()).collect()).unwrap_or_default();
-        sc.sort();
+        let mut sc: Vec<J> = e["scope"].as_array().cloned().unwrap_or_default();
+        sc.sort_by_key(|x| x.to_string());
         e["scope"] = json!(sc);
     }
     J::Array(v)
@@ -130,16 +130,18 @@ fn edits(text: &str) -> J {
             }
             let live = observe_plain(&doc);
             let ser = doc.to_string();
-            let re = match crate::xp::parse_merged(&ser) {
-                Ok(d2) => observe_plain(&d2),
-                Err(_) => return None, // serializability after edits is C15's business
+            // serializability after edits is C15's business: without a re-parse the live view is still judged
+            // against the specification's edit action
+            let (re, reparsed) = match crate::xp::parse_merged(&ser) {
+                Ok(d2) => (observe_plain(&d2), true),
+                Err(_) => (json!([]), false),
             };
-            Some(json!({"edit": name, "live": live, "re": re, "text": string_to_cps(&ser)}))
+            Some(json!({"edit": name, "live": live, "re": re, "reparsed": reparsed, "text": string_to_cps(&ser)}))
         });
         match r {
             Ok(Some(j)) => out.push(j),
             Ok(None) => {}
-            Err(p) => out.push(json!({"edit": name, "live": [{"panic": p}], "re": [], "text": []})),
+            Err(p) => out.push(json!({"edit": name, "live": [{"panic": p, "named": false, "scoped": false}], "re": [], "reparsed": true, "text": []})),
         }
     }
     J::Array(out)
